@@ -8,6 +8,7 @@ import (
 	"encoding/pem"
 	"errors"
 	"fmt"
+	"net"
 	"os"
 	"path/filepath"
 	"reflect"
@@ -334,6 +335,32 @@ func sequence(r *ev.Run, c *ev.Case, seqNo int) {
 	if err != nil {
 		r.Violation(c, "client-construction-fails", err.Error(), nil)
 		return
+	}
+	if seqNo%4 == 1 {
+		// every fourth sequence: the client dials a unix socket by address, as the command-line tools do
+		if dir, derr := os.MkdirTemp("", "ys"); derr == nil {
+			defer os.RemoveAll(dir)
+			addr := filepath.Join(dir, "s")
+			if l, lerr := net.Listen("unix", addr); lerr == nil {
+				defer l.Close()
+				go func() {
+					for {
+						cn, aerr := l.Accept()
+						if aerr != nil {
+							return
+						}
+						go func() { defer cn.Close(); defer func() { recover() }(); yubiagent.ServeAgent(srv, cn) }()
+					}
+				}()
+				if c2l, cerr := yubiagent.NewClient(addr); cerr == nil {
+					defer c2l.Close()
+					cl = c2l
+				} else {
+					r.Violation(c, "client-construction-fails:by-address", cerr.Error(), nil)
+					return
+				}
+			}
+		}
 	}
 	now := uint64(time.Now().Unix())
 	var trace []string
